@@ -1119,7 +1119,11 @@ class SshX509Certificate(ParsableBase, SshHostKeyBase):
 
         public_key = parser['public_key']
         if host_key_algorithm is None:
-            host_key_algorithm = cls._NOT_DEFINED_HOST_KEY_ALGORITHMS_BY_PUBLIC_KEY_TYPE.get(public_key.key_type, None)
+            try:
+                key_type = public_key.key_type
+            except (ValueError, KeyError) as e:
+                six.raise_from(InvalidValue(parser['public_key'].der, cls, 'public_key'), e)
+            host_key_algorithm = cls._NOT_DEFINED_HOST_KEY_ALGORITHMS_BY_PUBLIC_KEY_TYPE.get(key_type, None)
             if host_key_algorithm is None:
                 raise InvalidType()
 
@@ -1167,7 +1171,10 @@ class SshX509CertificateChain(ParsableBase, SshHostKeyBase):
         certificates = []
         for _ in range(parser['certificate_count']):
             parser.parse_bytes('certificate', 4)
-            certificates.append(PublicKeyX509.from_der(bytes(parser['certificate'])))
+            try:
+                certificates.append(PublicKeyX509.from_der(bytes(parser['certificate'])))
+            except ValueError as e:
+                six.raise_from(InvalidValue(parser['certificate'], cls, 'certificate'), e)
 
         parser.parse_numeric('ocsp_response_count', 4)
         ocsp_responses = []
